@@ -450,6 +450,22 @@ impl Engine for BlobEngine {
         caps.push(e / 2);
         caps.push(blen);
         caps.push(prep.file.len());
+        // every structural boundary of the expanded form (a budget that ends exactly between two
+        // chunks or fields), +-1
+        for b in crate::simio::parse_layout(&prep.expanded).boundaries() {
+            for d in [-1i64, 0, 1] {
+                let c = b as i64 + d;
+                if c >= 0 {
+                    caps.push(c as usize);
+                }
+            }
+        }
+        // complete enumeration below the boundary for small expanded forms (a refused budget costs microseconds)
+        let complete_caps = e <= if ctx.tier == Tier::Thorough { 256 * 1024 } else { 24 * 1024 };
+        if complete_caps {
+            caps.extend(0..e);
+            res.bump("workloads_with_complete_capacity_enumeration");
+        }
         caps.sort();
         caps.dedup();
         for &c in caps.iter() {
